@@ -27,3 +27,8 @@ def run(ctx):
         ctx, PID, "props/C06.v", make_work,
         "hash join and nested-loop join models refine the declarative join for INNER/LEFT/RIGHT/SEMI and MARK (hence ANTI), for any hash function respecting key equality, any directory size, insertion order, partition/batch split; NULL keys match nothing; unmatched preserved rows appear exactly once; strided drain covers every build row once; hash join and nested-loop join agree",
         "join-heavy queries (1-3 FROM items; CROSS/INNER/LEFT/RIGHT joins and comma joins; ON conditions with one or several equalities, equality plus inequality, inequality only, one-sided and mixed-side predicates; EXISTS/IN subqueries compiled to semi/anti/mark joins) over tables with NULL keys, duplicate keys, empty sides and many-to-many fan-out beyond small batch sizes; every query with hash joins on AND off; distinct = distinct (SQL text, config)")
+
+
+def replay(ctx, payload):
+    from . import sqlrun
+    return sqlrun.replay(ctx, payload)
